@@ -315,10 +315,16 @@ func sweepUnary[T comparable](d *dom[T], maxLen int) explore.Stats {
 func sweepUnaryGen[T comparable](d *dom[T], gen func(c *explore.Chooser) []T) explore.Stats {
 	return explore.Explore(-1, func(c *explore.Chooser) {
 		s := gen(c)
+		// storage shape: exactly sized, or a window of a larger array (cells before it and spare capacity
+		// behind it hold other values): the specification is over values, the storage must not matter
+		if c.Choose(2) == 1 {
+			s = windowOf(d, s)
+			rep.H("storage:window-with-spare-capacity", 1)
+		} else {
+			rep.H("storage:exact", 1)
+		}
 		l := fromSlice(s)
 		in := fmt.Sprint(s)
-		seen := map[string]bool{}
-		_ = seen
 		rep.Distinct++
 		if len(s) >= 1 {
 			rep.Nontrivial++
@@ -619,6 +625,92 @@ func sweepNested[T comparable](d *dom[T], maxOuter, maxInner int) explore.Stats 
 	}, func(c *explore.Chooser) bool { return !rep.TooMany() })
 }
 
+// windowOf returns a slice with the contents of s that is a window of a larger array: two cells before it and
+// three cells of spare capacity behind it, filled with other values of the domain.
+func windowOf[T comparable](d *dom[T], s []T) []T {
+	big := make([]T, len(s)+5)
+	for i := range big {
+		big[i] = d.wide(40 + i)
+	}
+	copy(big[2:], s)
+	return big[2 : 2+len(s)]
+}
+
+// sweepAliased: the arguments of the functions that take several slices (Append, Zip, Concat, Collect) are
+// windows of ONE backing array (every window i..j of a base of length 1..maxBase with pairwise distinct
+// values; a window's capacity reaches to the end of the base, as for Take / PopLast / Tail results).  The
+// expected result is computed from copies of the windows taken before the call; the base is rebuilt for
+// every call.  An implementation that builds its result inside one argument's storage computes a wrong
+// VALUE exactly when a later argument shares that storage.
+func sweepAliased[T comparable](d *dom[T], maxBase int) explore.Stats {
+	type win struct{ i, j int }
+	return explore.Explore(-1, func(c *explore.Chooser) {
+		n := 1 + c.Choose(maxBase)
+		k := 2 + c.Choose(2) // number of windows
+		var ws []win
+		for a := 0; a < k; a++ {
+			i := c.Choose(n + 1)
+			j := i + c.Choose(n-i+1)
+			ws = append(ws, win{i, j})
+		}
+		mk := func() ([]T, [][]T, [][]T) {
+			base := make([]T, n)
+			for x := range base {
+				base[x] = d.wide(x)
+			}
+			var args, copies [][]T
+			for _, w := range ws {
+				args = append(args, base[w.i:w.j])
+				copies = append(copies, append([]T{}, base[w.i:w.j]...))
+			}
+			return base, args, copies
+		}
+		in := fmt.Sprintf("base of length %d, windows %v", n, ws)
+		rep.Distinct++
+		rep.Nontrivial++
+		rep.H("storage:arguments-share-one-array", 1)
+		lists := func(cp [][]T) *L[*L[T]] {
+			var ls *L[*L[T]]
+			for i := len(cp) - 1; i >= 0; i-- {
+				ls = &L[*L[T]]{fromSlice(cp[i]), ls}
+			}
+			return ls
+		}
+		{
+			_, args, cp := mk()
+			check(d, "Concat", in, slice.Concat(args), toSlice(mConcat(lists(cp))))
+		}
+		{
+			_, args, cp := mk()
+			check(d, "Collect", in+" f=id", slice.Collect(func(x []T) []T { return x }, args), toSlice(mConcat(lists(cp))))
+		}
+		if k == 2 {
+			{
+				_, args, cp := mk()
+				check(d, "Append", in, slice.Append(args[0], args[1]), toSlice(mAppend(fromSlice(cp[0]), fromSlice(cp[1]))))
+			}
+			if len(ws) == 2 && ws[0].j-ws[0].i == ws[1].j-ws[1].i {
+				_, args, cp := mk()
+				var z []frt.Tuple2[T, T]
+				if ok, m := call(func() { z = slice.Zip(args[0], args[1]) }); ok {
+					checkV(d.name, "Zip", in, fmt.Sprint(z), fmt.Sprint(toSlice(mZip(fromSlice(cp[0]), fromSlice(cp[1])))))
+				} else {
+					panicked(d.name, "Zip", in, m)
+				}
+			}
+		}
+		// a chain: the result of one call is an argument of the next together with its own source
+		{
+			base, args, cp := mk()
+			_ = base
+			r1 := slice.Append(args[0], args[1])
+			w1 := toSlice(mAppend(fromSlice(cp[0]), fromSlice(cp[1])))
+			check(d, "Append", in+" then Concat [result; arg0; arg1]", slice.Concat([][]T{r1, args[0], args[1]}),
+				toSlice(mConcat(lists([][]T{w1, cp[0], cp[1]}))))
+		}
+	}, func(c *explore.Chooser) bool { return !rep.TooMany() })
+}
+
 func main() {
 	maxLen, maxLong, maxChunks := 5, 20, 7
 	if len(os.Args) > 1 && os.Args[1] == "thorough" {
@@ -667,6 +759,9 @@ func main() {
 	st.Add(sweepBinaryLong(strs, maxLong+14))
 	st.Add(sweepNestedLong(ints, maxChunks))
 	st.Add(sweepNestedLong(strs, maxChunks))
+	// arguments that share storage
+	st.Add(sweepAliased(ints, maxLen))
+	st.Add(sweepAliased(strs, maxLen-1))
 	// New
 	{
 		n := slice.New[int]()
